@@ -1,5 +1,5 @@
 (* GatesFacts.v — gates: auth decision, method override whitelist, wrapper nesting. *)
-From Rux Require Import Base BaseFacts Str Consts Writer Chain ChainFacts Dispatch Gates.
+From Rux Require Import Base BaseFacts Str Consts Writer Chain ChainFacts ChainMore Dispatch Gates.
 Local Open Scope nat_scope.
 
 (* ---- method override: rewritten only for POST, only to PUT/PATCH/DELETE (case-insensitively), original recorded ---- *)
@@ -98,3 +98,34 @@ Proof.
   - split; [discriminate|]. intros (u & p & H & _). discriminate.
 Qed.
 End AuthFacts.
+
+(* ---- the auth middleware as a gate of the chain machine ---- *)
+Section AuthGate.
+Variable b64 : str -> option str.
+Local Open Scope Z_scope.
+
+(* denied: the request completes and only the auth middleware has started *)
+Theorem auth_denied_nothing_downstream accts hdr (rest : list hprog) x0 :
+  basic_auth b64 accts hdr <> Allow (match basic_auth b64 accts hdr with Allow u _ => u | _ => [] end)
+                                    (match basic_auth b64 accts hdr with Allow _ p => p | _ => [] end) ->
+  handlers_ok eff (auth_prog b64 accts hdr :: rest) ->
+  exists n c, mrun n (init xctx eff (auth_prog b64 accts hdr :: rest) x0) = Halt c /\ started c = [0%nat].
+Proof.
+  intros Hd Hok. unfold auth_prog in *. destruct (basic_auth b64 accts hdr) as [u p| |] eqn:E.
+  - exfalso. apply Hd. reflexivity.
+  - apply (deny_gate xctx eff apply_eff note_aborted abort_status
+             [EW (WSetHeader hdr_www challenge); EW (WHttpError msg_unauth 401)] OAbort [] rest x0); auto.
+  - apply (deny_gate xctx eff apply_eff note_aborted abort_status
+             [] (OAbortStatus 403) [ESetData k_user 0; ESetData k_pass 0] rest x0); eauto.
+Qed.
+
+(* allowed: every handler of the chain starts, in order *)
+Theorem auth_allowed_chain_runs accts hdr u p (ws : list (wb eff)) x0 :
+  basic_auth b64 accts hdr = Allow u p -> Z.of_nat (S (List.length ws)) <= 63 ->
+  exists n c, mrun n (init xctx eff (auth_prog b64 accts hdr :: map (prog eff) ws) x0) = Halt c
+              /\ started c = seq 0 (S (List.length ws)).
+Proof.
+  intros E Hl. unfold auth_prog. rewrite E.
+  apply (allow_gate xctx eff apply_eff note_aborted abort_status [ESetData k_user 0; ESetData k_pass 0] ws x0); auto.
+Qed.
+End AuthGate.
